@@ -140,7 +140,7 @@ def _canon_files_round_robin(req, k):
 
 
 def body_request(wire, sched, *, B, M=None, cl=None, chunked=False, ctype=None, tempmode='real',
-                 touch=('body',), endless=None, max_calls=None, propagate=True, method='POST', retry=False, cfgvia=None, stages=None,
+                 touch=('body',), endless=None, max_calls=None, propagate=True, method=None, retry=False, cfgvia=None, stages=None,
                  keep_alive=False, errors_map=None, via_copy=None):
     """Serve one request whose body stream is SimStream(wire, sched)."""
     import ombott
@@ -165,6 +165,10 @@ def body_request(wire, sched, *, B, M=None, cl=None, chunked=False, ctype=None, 
         # both ways of configuring an application must behave alike; which one a run uses is a pure function of its wire
         cfgvia = 'setup' if zlib.crc32(bytes(wire[:256])) % 4 == 0 else 'ctor'
 
+    if method is None:
+        # a body is a body whatever the request method (incl. an extension method); which one a run uses is a pure
+        # function of its wire
+        method = ['POST', 'POST', 'POST', 'POST', 'PUT', 'PATCH', 'DELETE', 'REPORT'][zlib.crc32(bytes(wire[:96]) + b'method') % 8]
     if via_copy is None:
         # an application that works on `request.copy()` from the start (taken before the body was touched) must
         # meet the same limits, thresholds and error mapping; which runs do is a pure function of the wire
@@ -188,7 +192,7 @@ def body_request(wire, sched, *, B, M=None, cl=None, chunked=False, ctype=None, 
                 SHARED['handlers'] = {}
                 # one route for all threads of the run, registered before any of them serves
                 # (registering routes while another thread is resolving is not what is under test)
-                SHARED['app'].route('/x/<k:int>', method=['GET', 'POST', 'PUT', 'PATCH', 'DELETE'],
+                SHARED['app'].route('/x/<k:int>', method=['GET', 'POST', 'PUT', 'PATCH', 'DELETE', 'REPORT'],
                                     callback=lambda k, _h=SHARED['handlers']: _h[k]())
             elif SHARED['cfg'][:3] != (B, M, errors_map):
                 raise AssertionError(f'twin threads disagree on the application config: {SHARED["cfg"]} vs {(B, M, errors_map, cfgvia)}')
